@@ -1,6 +1,7 @@
 package props
 
 import (
+	"regexp"
 	"go/token"
 	"fmt"
 	"go/ast"
@@ -356,4 +357,86 @@ func loopCount(fs *ast.ForStmt) (n string, ok bool) {
 		return strings.TrimSuffix(start, " - 1"), true
 	}
 	return "", false
+}
+
+// boundFunc is a function of a helper closure together with what its parameters stand for at its (first) call site
+// inside the closure: parameter name → text of the argument expression, itself resolved through the caller's bindings.
+type boundFunc struct {
+	fn    *core.FuncRef
+	binds map[string]string
+	// conds: the conditions of the if statements whose then-branch encloses the call site (outermost first), the
+	// callers' included — what is known to hold when the helper runs
+	conds []string
+}
+
+// helperClosureBound is helperClosure with parameter bindings: a rule that looks for "a loop over x.nullCheckIndices"
+// finds the loop over a helper's parameter that was handed x.nullCheckIndices.
+func helperClosureBound(p *core.Program, fn *core.FuncRef) []boundFunc {
+	helperInline(p, "", nil)
+	idx := helperDecls[p]
+	out := []boundFunc{{fn, map[string]string{}, nil}}
+	seen := map[*types.Func]bool{}
+	if fn.Obj != nil {
+		seen[fn.Obj] = true
+	}
+	for i := 0; i < len(out) && i < 40; i++ {
+		cur := out[i]
+		info := cur.fn.Info()
+		core.WalkStack(cur.fn.Decl.Body, func(n ast.Node, stack []ast.Node) bool {
+			call, ok := n.(*ast.CallExpr)
+			if !ok {
+				return true
+			}
+			f, ok := core.Callee(info, call).(*types.Func)
+			if !ok || f.Pkg() == nil || f.Pkg().Path() != fn.Pkg.PkgPath || f.Exported() || seen[f] {
+				return true
+			}
+			fr := idx[f]
+			if fr == nil {
+				return true
+			}
+			seen[f] = true
+			conds := append([]string(nil), cur.conds...)
+			for k, anc := range stack {
+				if is, ok := anc.(*ast.IfStmt); ok && k+1 < len(stack) && stack[k+1] == ast.Node(is.Body) {
+					conds = append(conds, resolveText(core.ExprStr(is.Cond), cur.binds))
+				}
+			}
+			b := map[string]string{}
+			k := 0
+			if fr.Decl.Type.Params != nil {
+				for _, fl := range fr.Decl.Type.Params.List {
+					for _, nm := range fl.Names {
+						if k < len(call.Args) {
+							b[nm.Name] = resolveText(core.ExprStr(call.Args[k]), cur.binds)
+						}
+						k++
+					}
+				}
+			}
+			// the receiver of a method call
+			if fr.Decl.Recv != nil && len(fr.Decl.Recv.List) == 1 && len(fr.Decl.Recv.List[0].Names) == 1 {
+				if sel, ok := call.Fun.(*ast.SelectorExpr); ok {
+					b[fr.Decl.Recv.List[0].Names[0].Name] = resolveText(core.ExprStr(sel.X), cur.binds)
+				}
+			}
+			out = append(out, boundFunc{fr, b, conds})
+			return true
+		})
+	}
+	return out
+}
+
+var identRE = regexp.MustCompile(`[A-Za-z_][A-Za-z0-9_]*`)
+
+// resolveText replaces the leading identifier of an expression text by what it is bound to (x.f with x ↦ a.b gives a.b.f).
+func resolveText(s string, binds map[string]string) string {
+	loc := identRE.FindStringIndex(s)
+	if loc == nil || loc[0] != 0 {
+		return s
+	}
+	if to, ok := binds[s[:loc[1]]]; ok {
+		return to + s[loc[1]:]
+	}
+	return s
 }
